@@ -49,6 +49,8 @@ func main() {
 		noEv   = flag.Bool("no-evidence", false, "do not write evidence/replay files (used for scratch variants)")
 		list   = flag.Bool("list", false, "list rules per property")
 		goarch = flag.String("goarch", "", "GOARCH for loading (thorough tier also loads 386)")
+		dump   = flag.String("pathsum", "", "debug: dump the path summaries of recv.func")
+		quiet  = flag.Bool("q", false, "with -pathsum: counts only")
 	)
 	flag.Parse()
 	if *tier == "" {
@@ -70,6 +72,15 @@ func main() {
 		for _, id := range ids {
 			fmt.Println(id, len(registry[id].rules), "rule groups")
 		}
+		return
+	}
+	if *dump != "" {
+		P, err := LoadProgram(*repo, *goarch, false)
+		if err != nil {
+			fmt.Fprintln(os.Stderr, err)
+			os.Exit(2)
+		}
+		dumpPathSum(&Ctx{P: P, R: NewRun("dump", *tier, 0), Tier: *tier}, *dump, *quiet)
 		return
 	}
 	pc := registry[*prop]
